@@ -828,3 +828,40 @@ def memo_invalidation(tree: Tree, cls_qual: str) -> list[dict]:
                 for c in walk_function(m.node))
             out.append({"memo": a, "writer": m, "touched": sorted(touched), "resets": resets, "computed_in": info["method"]})
     return out
+
+
+# --------------------------------------------------------------------------- R-SIMULSUBS / R-OWNDOIT
+def sequential_subs_sites(tree: Tree, module_prefixes: tuple[str, ...]) -> list[dict]:
+    """`expr.subs(<mapping with several pairs>)` without simultaneous=True whose replacement values
+    are arbitrary expressions (function parameters, self.args, unfolded arguments): SymPy applies the
+    pairs one after the other, so a replacement that contains a later key is substituted again
+    ({a: b, b: c} sends a to c).  xreplace / simultaneous=True / Dummy keys are the safe forms."""
+    out = []
+    for q, fn in sorted(tree.funcs.items()):
+        if not q.startswith(module_prefixes) or fn.outer is not None:
+            continue
+        rd = RD(fn.node)
+        for node in walk_function(fn.node, nested=True):
+            if not (isinstance(node, ast.Call) and isinstance(node.func, ast.Attribute) and node.func.attr == "subs" and len(node.args) == 1):
+                continue
+            if any(k.arg == "simultaneous" and isinstance(k.value, ast.Constant) and k.value.value is True for k in node.keywords):
+                continue
+            arg = node.args[0]
+            exprs = [arg] + [d.value for d in rd.closure(rd.uses(arg)) if isinstance(d.value, ast.AST)]
+            multi = None
+            for e in exprs:
+                for sub in ast.walk(e):
+                    if isinstance(sub, ast.Call) and unparse(sub.func) in {"zip", "dict"} and sub.args:
+                        multi = sub
+                    if isinstance(sub, ast.Dict) and len(sub.keys) > 1:
+                        multi = sub
+                    if isinstance(sub, ast.DictComp):
+                        multi = sub
+            if multi is None:
+                continue
+            txt = " ".join(unparse(e) for e in exprs)
+            arbitrary = any(k in txt for k in ("self.args", ".doit(", "*args")) or any(
+                d.kind == "param" for d in rd.closure(rd.uses(arg)))
+            dummy = "Dummy(" in txt
+            out.append({"fn": fn, "node": node, "arbitrary": arbitrary and not dummy, "mapping": unparse(multi)[:60]})
+    return out
